@@ -10,9 +10,14 @@ Open Scope Z_scope.
 Definition past_inv (t : thread) : bool :=
   match t_pc t with
   | RfLoad | RfCas | CClose | Done | Crash | LCas | LLoad | LLook1 | LLook2 | LCellLoad | LCellCas
-  | GRfLoad | GClose => true
+  | GIvLoad | GIvCas | GRfLoad | GClose => true
   | _ => false
   end.
+
+(* the same for the mapping a thread's own lookup replaced (t_prev2): it is past
+   its inline invalidate from GRfLoad on *)
+Definition past_g (t : thread) : bool :=
+  match t_pc t with GIvLoad | GIvCas => false | _ => true end.
 
 (* facts about a thread that has stored a mapping (t_prev = the mapping it replaced) *)
 Definition chg_ok (s : shared) (LO : Z) (t : thread) : Prop :=
@@ -23,12 +28,23 @@ Definition chg_ok (s : shared) (LO : Z) (t : thread) : Prop :=
       (past_inv t = true -> s_ptr s = Some g -> w_have (s_word s) = false \/ 1 <= LO)
   end.
 
+Definition chg_ok2 (s : shared) (LO : Z) (t : thread) : Prop :=
+  match t_prev2 t with
+  | None => True
+  | Some g =>
+      (g < length (s_maps s))%nat /\ s_cur s <> Some g /\
+      (past_g t = true -> s_ptr s = Some g -> w_have (s_word s) = false \/ 1 <= LO)
+  end.
+
+Definition witness (g : nat) (t : thread) : Prop :=
+  (t_prev t = Some g /\ past_inv t = true) \/ (t_prev2 t = Some g /\ past_g t = true).
+
 Definition closed_ok (s : shared) (ts : list thread) : Prop :=
-  forall g, In g (s_closed s) -> exists j t, nth_error ts j = Some t /\ t_prev t = Some g /\ past_inv t = true.
+  forall g, In g (s_closed s) -> exists j t, nth_error ts j = Some t /\ witness g t.
 
 Definition FInv (st : state) : Prop :=
   let '(s, ts) := st in
-  Forall (chg_ok s (sumf look ts)) ts /\ closed_ok s ts.
+  Forall (chg_ok s (sumf look ts)) ts /\ Forall (chg_ok2 s (sumf look ts)) ts /\ closed_ok s ts.
 
 (* how one step may change what chg_ok mentions *)
 Definition ok_change (s : shared) (LO : Z) (s' : shared) (LO' : Z) : Prop :=
@@ -44,6 +60,22 @@ Lemma chg_ok_preserved s LO s' LO' t t' :
   ok_change s LO s' LO' -> chg_ok s LO t -> chg_ok s' LO' t'.
 Proof.
   intros Epv Epi (Hm & Hc & Hp) H. unfold chg_ok in *. rewrite Epv. destruct (t_prev t) as [g|]; [|exact I].
+  destruct H as (Hg & Hcur & Hq). split; [lia|]. split.
+  - destruct Hc as [-> | [-> | ->]]; [exact Hcur | discriminate | intro E; injection E as E; lia].
+  - intros Hpi Hptr. apply Epi in Hpi. destruct Hp as [(Ep & Hlo & Hh) | [Ep | [(Ep & Ec) | Hf0]]].
+    + rewrite Ep in Hptr. destruct (Hq Hpi Hptr) as [Hf | Hl]; [|right; lia].
+      destruct (w_have (s_word s')) eqn:E; [|left; reflexivity].
+      destruct (Hh eq_refl) as [X | X]; [congruence | right; exact X].
+    + congruence.
+    + rewrite Ep in Hptr. contradiction.
+    + left. exact Hf0.
+Qed.
+
+Lemma chg_ok2_preserved s LO s' LO' t t' :
+  t_prev2 t' = t_prev2 t -> (past_g t' = true -> past_g t = true) ->
+  ok_change s LO s' LO' -> chg_ok2 s LO t -> chg_ok2 s' LO' t'.
+Proof.
+  intros Epv Epi (Hm & Hc & Hp) H. unfold chg_ok2 in *. rewrite Epv. destruct (t_prev2 t) as [g|]; [|exact I].
   destruct H as (Hg & Hcur & Hq). split; [lia|]. split.
   - destruct Hc as [-> | [-> | ->]]; [exact Hcur | discriminate | intro E; injection E as E; lia].
   - intros Hpi Hptr. apply Epi in Hpi. destruct Hp as [(Ep & Hlo & Hh) | [Ep | [(Ep & Ec) | Hf0]]].
@@ -82,8 +114,8 @@ Lemma have_dec w : 0 <= w < W64 -> 1 <= w_readers w -> w_have (w_dec_reader w) =
 Proof. intros Hw Hr. pose proof (fields_of _ Hw) as F. apply (fields_have _ _ _ _ (f_dec _ _ _ _ F Hr)). Qed.
 
 Ltac mf Hpc :=
-  unfold look, past_inv in *;
-  cbn [t_pc t_prev t_amt t_st t_kind t_old t_tgt t_after with_pc with_st with_st2 with_old with_amt to_close after_release goto_nops] in *;
+  unfold look, past_inv, past_g in *;
+  cbn [t_pc t_prev t_prev2 t_amt t_st t_kind t_old t_tgt t_after with_pc with_st with_st2 with_old with_amt to_close after_release goto_nops] in *;
   try rewrite Hpc in *; cbn iota beta in *.
 
 Definition step_facts (s : shared) (u : thread) (s' : shared) (u' : thread) (rest : Z) : Prop :=
@@ -91,7 +123,13 @@ Definition step_facts (s : shared) (u : thread) (s' : shared) (u' : thread) (res
   (t_prev u <> None -> t_prev u' = t_prev u /\ (past_inv u = true -> past_inv u' = true) /\
      (past_inv u = false -> past_inv u' = true -> w_have (s_word s') = false)) /\
   (t_prev u = None -> t_prev u' = None \/ (t_prev u' = s_cur s /\ past_inv u' = false /\ (forall g, s_cur s = Some g -> s_cur s' <> Some g))) /\
-  (s_closed s' = s_closed s \/ exists g, t_prev u = Some g /\ past_inv u = true /\ s_closed s' = g :: s_closed s).
+  (s_closed s' = s_closed s \/ exists g, witness g u /\ s_closed s' = g :: s_closed s).
+
+(* the same bookkeeping for the mapping replaced by the thread's own lookup *)
+Definition step_facts2 (s : shared) (u : thread) (s' : shared) (u' : thread) : Prop :=
+  (t_prev2 u <> None -> t_prev2 u' = t_prev2 u /\ (past_g u = true -> past_g u' = true) /\
+     (past_g u = false -> past_g u' = true -> w_have (s_word s') = false)) /\
+  (t_prev2 u = None -> t_prev2 u' = None \/ (t_prev2 u' = s_cur s /\ past_g u' = false /\ (forall g, s_cur s = Some g -> s_cur s' <> Some g))).
 
 Lemma facts_same s u u' rest :
   look u' = look u -> t_prev u' = t_prev u -> (t_prev u = None \/ past_inv u' = past_inv u) -> step_facts s u s u' rest.
@@ -208,15 +246,12 @@ Proof.
       unfold ok_change. cbn [set_ptr s_ptr s_cur s_maps s_closed s_word].
       split; [lia|]; split; [left; reflexivity|]; right; right; left; split; reflexivity. }
     destruct (s_cur s) as [g0|] eqn:Ec; [|apply Plain; rewrite <- H; reflexivity].
-    destruct (t_prev u) eqn:Epv; [apply Plain; rewrite <- H; reflexivity|].
+    destruct (t_prev2 u) eqn:Epv; [apply Plain; rewrite <- H; reflexivity|].
     destruct (s_full s) eqn:Efu; [|apply Plain; rewrite <- H; reflexivity].
-    destruct (t_kind u) eqn:Ekd; cbn [andb] in H; [|apply Plain; rewrite <- H; reflexivity].
     injection H as <- <-.
-    unfold step_facts, ok_change. mf Hpc. cbn [s_ptr s_cur s_maps s_closed s_word].
-    split; [split; [rewrite app_length; lia|]; split; [right; right; reflexivity|]; left; split; [reflexivity|]; split; [lia|]; intros X; left; exact X|].
-    split; [intros X; contradiction|].
-    split; [intros _; right; split; [rewrite Ec; reflexivity|]; split; [reflexivity|]; intros g Eg; rewrite Ec in Eg; injection Eg as <-; specialize (Hcur g0 eq_refl); intro X; injection X as X; lia|].
-    left; reflexivity.
+    apply facts_gen; mf Hpc; try reflexivity; try (intros; discriminate).
+    unfold ok_change. cbn [s_ptr s_cur s_maps s_closed s_word].
+    split; [rewrite app_length; lia|]; split; [right; right; reflexivity|]; left; split; [reflexivity|]; split; [lia|]; intros X; left; exact X.
   - (* GIvLoad *)
     destruct (w_have (s_word s)) eqn:Eh; injection H as <- <-.
     + fs Hpc.
@@ -225,9 +260,8 @@ Proof.
   - (* GIvCas *)
     destruct (Z.eqb_spec (s_word s) (t_old u)) as [Ew|Ne]; injection H as <- <-.
     + rewrite <- Ew. apply facts_gen; mf Hpc; try reflexivity; try (intros; discriminate).
-      * unfold ok_change. cbn [set_word s_ptr s_cur s_maps s_closed s_word]. rewrite (have_clear_have _ Hw).
-        split; [lia|]; split; [left; reflexivity|]; left; split; [reflexivity|]; split; [lia|]; intros X; discriminate.
-      * intros _ _ _. cbn [set_word s_word]. apply (have_clear_have _ Hw).
+      unfold ok_change. cbn [set_word s_ptr s_cur s_maps s_closed s_word]. rewrite (have_clear_have _ Hw).
+      split; [lia|]; split; [left; reflexivity|]; left; split; [reflexivity|]; split; [lia|]; intros X; discriminate.
     + fs Hpc.
   - (* GRfLoad *)
     destruct (w_have (s_word s) || (0 <? w_readers (s_word s)) || (w_extra (s_word s) =? 0)) eqn:Cd; injection H as <- <-.
@@ -236,16 +270,15 @@ Proof.
       apply Z.ltb_ge in Cd. specialize (Hgr eq_refl). lia.
   - (* GClose *)
     specialize (Hgc eq_refl).
-    destruct (t_prev u) as [g|] eqn:Epv; injection H as <- <-.
+    destruct (t_prev2 u) as [g|] eqn:Epv; injection H as <- <-.
     + unfold step_facts, ok_change. mf Hpc. cbn [s_ptr s_cur s_maps s_closed s_word].
       split; [split; [lia|]; split; [left; reflexivity|]; right; right; right; exact Hgc|].
       split; [intros _; split; [reflexivity|]; split; [auto|intros X; discriminate]|].
-      split; [intros X; rewrite Epv in X; discriminate|].
-      right. exists g. auto.
-    + unfold step_facts, ok_change. mf Hpc. cbn [set_ptr s_ptr s_cur s_maps s_closed s_word].
-      split; [split; [lia|]; split; [left; reflexivity|]; right; right; right; exact Hgc|].
-      split; [intros X; rewrite Epv in X; contradiction|].
-      split; [intros _; left; exact Epv|]. left; reflexivity.
+      split; [intros X; left; exact X|].
+      right. exists g. split; [right; unfold past_g; rewrite Hpc; auto | reflexivity].
+    + apply facts_gen; mf Hpc; try reflexivity; try (intros; discriminate).
+      unfold ok_change. cbn [set_ptr s_ptr s_cur s_maps s_closed s_word].
+      split; [lia|]; split; [left; reflexivity|]; right; right; right; exact Hgc.
   - (* LCellLoad *)
     destruct (s_ptr s); injection H as <- <-.
     + fw Hpc. auto.
@@ -263,21 +296,26 @@ Proof.
     { intros k t0 E1 E2. destruct k; cbn; auto. }
     destruct (t_tgt u).
     + injection H as <- <-.
-      destruct (G (n_after_store_rotate np) (mkT Done Changer (t_st u) (t_amt u) (t_old u) (s_cur s) NewFile Done) eq_refl eq_refl) as (G1 & G2 & G3).
+      destruct (G (n_after_store_rotate np) (mkT Done Changer (t_st u) (t_amt u) (t_old u) (s_cur s) (t_prev2 u) NewFile Done) eq_refl eq_refl) as (G1 & G2 & G3).
       unfold step_facts, ok_change. rewrite G1, G2, G3. mf Hpc. cbn [s_ptr s_cur s_maps s_closed s_word].
       split; [split; [rewrite app_length; lia|]; split; [right; right; reflexivity|]; left; split; [reflexivity|]; split; [lia|]; intros X; left; exact X|].
       split; [intros X; contradiction|]. split; [intros _; right; split; [reflexivity|]; split; [reflexivity|]; intros g Eg; first [discriminate | (specialize (Hcur g Eg); intro X; injection X as X; lia)]|]. left; reflexivity.
     + destruct (s_cur s) as [g0|] eqn:Ec; [destruct (s_tight s) eqn:Eti|]; injection H as <- <-.
-      * destruct (G (n_after_store_extend np) (mkT Done Changer (t_st u) (t_amt u) (t_old u) (Some g0) SameFile Done) eq_refl eq_refl) as (G1 & G2 & G3).
+      * destruct (G (n_after_store_extend np) (mkT Done Changer (t_st u) (t_amt u) (t_old u) (Some g0) (t_prev2 u) SameFile Done) eq_refl eq_refl) as (G1 & G2 & G3).
         unfold step_facts, ok_change. rewrite G1, G2, G3. mf Hpc. cbn [s_ptr s_cur s_maps s_closed s_word].
         split; [split; [rewrite app_length; lia|]; split; [right; right; reflexivity|]; left; split; [reflexivity|]; split; [lia|]; intros X; left; exact X|].
         split; [intros X; contradiction|]. split; [intros _; right; split; [rewrite Ec; reflexivity|]; split; [reflexivity|]; intros g Eg; rewrite Ec in Eg; injection Eg as <-; specialize (Hcur g0 eq_refl); intro X; injection X as X; lia|]. left; reflexivity.
       * fs Hpc.
       * fs Hpc.
     + injection H as <- <-.
-      destruct (G (n_after_store_rotate np) (mkT Done Changer (t_st u) (t_amt u) (t_old u) (s_cur s) NoFile Done) eq_refl eq_refl) as (G1 & G2 & G3).
+      destruct (G (n_after_store_rotate np) (mkT Done Changer (t_st u) (t_amt u) (t_old u) (s_cur s) (t_prev2 u) NoFile Done) eq_refl eq_refl) as (G1 & G2 & G3).
       unfold step_facts, ok_change. rewrite G1, G2, G3. mf Hpc. cbn [s_ptr s_cur s_maps s_closed s_word].
       split; [split; [lia|]; split; [right; left; reflexivity|]; left; split; [reflexivity|]; split; [lia|]; intros X; left; exact X|].
+      split; [intros X; contradiction|]. split; [intros _; right; split; [reflexivity|]; split; [reflexivity|]; intros g Eg; first [discriminate | (specialize (Hcur g Eg); intro X; injection X as X; lia)]|]. left; reflexivity.
+    + injection H as <- <-.
+      destruct (G (n_after_store_rotate np) (mkT Done Changer (t_st u) (t_amt u) (t_old u) (s_cur s) (t_prev2 u) FullFile Done) eq_refl eq_refl) as (G1 & G2 & G3).
+      unfold step_facts, ok_change. rewrite G1, G2, G3. mf Hpc. cbn [s_ptr s_cur s_maps s_closed s_word].
+      split; [split; [rewrite app_length; lia|]; split; [right; right; reflexivity|]; left; split; [reflexivity|]; split; [lia|]; intros X; left; exact X|].
       split; [intros X; contradiction|]. split; [intros _; right; split; [reflexivity|]; split; [reflexivity|]; intros g Eg; first [discriminate | (specialize (Hcur g Eg); intro X; injection X as X; lia)]|]. left; reflexivity.
   - (* CNop *) injection H as <- <-. destruct k; fs Hpc.
   - (* IvLoad *)
@@ -306,7 +344,7 @@ Proof.
       split; [split; [lia|]; split; [left; reflexivity|]; left; split; [reflexivity|]; split; [lia|]; intros X; left; exact X|].
       split; [intros _; split; [reflexivity|]; split; [auto|intros X; discriminate]|].
       split; [intros X; rewrite Epv in X; discriminate|].
-      right. exists g. auto.
+      right. exists g. split; [left; unfold past_inv; rewrite Hpc; auto | reflexivity].
     + (fs Hpc; cbn; rewrite ?Epv; reflexivity).
   - (* Crash *) injection H as <- <-. apply facts_same; try reflexivity; right; reflexivity.
   - (* Done *) injection H as <- <-. apply facts_same; try reflexivity; right; reflexivity.
@@ -325,7 +363,7 @@ Proof.
     repeat match goal with
            | H : (if ?c then _ else _) = _ |- _ => destruct c
            | H : match ?c with Some _ => _ | None => _ end = _ |- _ => destruct c
-           | H : match ?c with NewFile => _ | SameFile => _ | NoFile => _ end = _ |- _ => destruct c
+           | H : match ?c with NewFile => _ | SameFile => _ | NoFile => _ | FullFile => _ end = _ |- _ => destruct c
            | H : (_, match ?k with O => _ | S _ => _ end) = _ |- _ => destruct k
            end;
     try (injection H as <- <-);
@@ -351,12 +389,64 @@ Proof.
   intros F H Hx. apply Forall_upd; [|exact Hx]. eapply Forall_impl; [|exact F]. exact H.
 Qed.
 
+(* the bookkeeping of t_prev2: only the extending lookup sets it, only the
+   inline invalidate moves the thread past it *)
+Lemma step_change2 np s u s' u' :
+  step_thread np s u = (s', u') -> 0 <= s_word s < W64 ->
+  (forall g, s_cur s = Some g -> (g < length (s_maps s))%nat) ->
+  step_facts2 s u s' u'.
+Proof.
+  intros H Hw Hcur. unfold step_thread in H. unfold step_facts2.
+  destruct (t_pc u) eqn:Hpc;
+    try (* the pcs that neither are G program points nor can start an extension *)
+      (repeat match goal with
+              | H : (if ?c then _ else _) = _ |- _ => destruct c
+              | H : match ?c with Some _ => _ | None => _ end = _ |- _ => destruct c
+              | H : match ?c with NewFile => _ | SameFile => _ | NoFile => _ | FullFile => _ end = _ |- _ => destruct c
+              end;
+       injection H as <- <-;
+       unfold after_release, to_close, goto_nops, past_g;
+       repeat match goal with |- context [match t_kind ?c with Adder => _ | Changer => _ end] => destruct (t_kind c) end;
+       repeat match goal with |- context [match t_prev ?c with Some _ => _ | None => _ end] => destruct (t_prev c) end;
+       repeat match goal with |- context [match ?k with O => _ | S _ => _ end] => destruct k end;
+       cbn [t_pc t_prev2 with_pc with_st with_st2 with_old with_amt]; rewrite ?Hpc;
+       (split; [intros _; split; [reflexivity|]; split; [auto | intros X; discriminate] | intros X; left; exact X]);
+       fail).
+  - (* LLook2 *)
+    assert (Plain : (s', u') = (set_ptr s (s_cur s), with_pc u LCas) ->
+      (t_prev2 u <> None -> t_prev2 u' = t_prev2 u /\ (past_g u = true -> past_g u' = true) /\
+         (past_g u = false -> past_g u' = true -> w_have (s_word s') = false)) /\
+      (t_prev2 u = None -> t_prev2 u' = None \/ (t_prev2 u' = s_cur s /\ past_g u' = false /\ (forall g, s_cur s = Some g -> s_cur s' <> Some g)))).
+    { intros X. injection X as -> ->. unfold past_g. cbn [t_pc t_prev2 with_pc]. rewrite Hpc.
+      split; [intros _; split; [reflexivity|]; split; [auto | intros X; discriminate] | intros X; left; exact X]. }
+    destruct (s_cur s) as [g0|] eqn:Ec; [|apply Plain; rewrite <- H; reflexivity].
+    destruct (t_prev2 u) eqn:Epv; [apply Plain; rewrite <- H; reflexivity|].
+    destruct (s_full s) eqn:Efu; [|apply Plain; rewrite <- H; reflexivity].
+    injection H as <- <-. unfold past_g. cbn [t_pc t_prev2 s_cur].
+    split; [intros X; contradiction|]. intros _. right. split; [reflexivity|]. split; [reflexivity|].
+    intros g Eg. injection Eg as <-. specialize (Hcur g0 eq_refl). intro X. injection X as X. lia.
+  - (* GIvLoad *)
+    destruct (w_have (s_word s)) eqn:Eh; injection H as <- <-; unfold past_g; cbn [t_pc t_prev2 with_pc with_st2]; rewrite Hpc.
+    + split; [intros _; split; [reflexivity|]; split; [auto | intros _ X; discriminate] | intros X; left; exact X].
+    + split; [intros _; split; [reflexivity|]; split; [auto | intros _ _; exact Eh] | intros X; left; exact X].
+  - (* GIvCas *)
+    destruct (Z.eqb_spec (s_word s) (t_old u)) as [Ew|Ne]; injection H as <- <-; unfold past_g; cbn [t_pc t_prev2 with_pc]; rewrite Hpc.
+    + split; [intros _; split; [reflexivity|]; split; [auto | intros _ _; cbn [set_word s_word]; rewrite <- Ew; apply (have_clear_have _ Hw)] | intros X; left; exact X].
+    + split; [intros _; split; [reflexivity|]; split; [auto | intros _ X; discriminate] | intros X; left; exact X].
+  - (* GClose *)
+    destruct (t_prev2 u) eqn:Epv; injection H as <- <-; unfold past_g; cbn [t_pc t_prev2 with_pc]; rewrite Hpc, ?Epv;
+      (split; [intros _; split; [reflexivity|]; split; [auto | intros X; discriminate] | intros X; first [discriminate X | left; reflexivity]]).
+  - (* CIdle *)
+    injection H as <- <-. unfold past_g. cbn [t_pc t_prev2 with_pc]. rewrite Hpc.
+    destruct (t_tgt u); (split; [intros _; split; [reflexivity|]; split; [auto | intros X; discriminate] | intros X; left; exact X]).
+Qed.
+
 Theorem finv_step np T st i :
   Inv T st -> FInv st -> Forall prev_none_ok (snd st) ->
   FInv (step np st i) /\ Forall prev_none_ok (snd (step np st i)).
 Proof.
-  destruct st as [s ts]. cbn [snd]. intros I (FC & CL) PN. unfold step.
-  destruct (nth_error ts i) as [u|] eqn:Hn; [|split; [split; assumption|exact PN]].
+  destruct st as [s ts]. cbn [snd]. intros I (FC & FC2 & CL) PN. unfold step.
+  destruct (nth_error ts i) as [u|] eqn:Hn; [|split; [split; [|split]; assumption|exact PN]].
   destruct (step_thread np s u) as [s' u'] eqn:Hs. cbn [snd].
   destruct I as (r & h & e & F & C & TL & W & _ & _ & SO & _).
   pose proof (fields_range _ _ _ _ F) as Hw.
@@ -377,10 +467,11 @@ Proof.
     assert (gp u = 1) by (unfold gp; rewrite Hpc; reflexivity).
     destruct SO as (_ & _ & _ & _ & S5). apply S5. lia. }
   pose proof (step_change np s u s' u' (sumf look ts - look u) Hs Hw ltac:(lia) Hamt Hrd Hcur Pu Hgr Hgc) as (OC & S2 & S3 & S4).
+  pose proof (step_change2 np s u s' u' Hs Hw Hcur) as (T2 & T3).
   replace (look u + (sumf look ts - look u)) with (sumf look ts) in OC by lia.
   pose proof (sumf_upd look _ _ _ u' Hn) as Ulo.
   replace (look u' + (sumf look ts - look u)) with (sumf look (upd ts i u')) in OC by lia.
-  split; [split|].
+  split; [split; [|split]|].
   - (* chg_ok for every thread *)
     apply Forall_upd.
     + eapply Forall_impl; [|exact FC]. intros t Ht. eapply (chg_ok_preserved s _ s' _ t t); eauto.
@@ -398,18 +489,37 @@ Proof.
         destruct (s_cur s) as [g0|] eqn:Ec; [|exact I].
         destruct OC as (Hm & _ & _). split; [specialize (Hcur g0 eq_refl); lia|]. split; [apply Hne; reflexivity|].
         intros X. congruence.
+  - (* chg_ok2 for every thread *)
+    apply Forall_upd.
+    + eapply Forall_impl; [|exact FC2]. intros t Ht. eapply (chg_ok2_preserved s _ s' _ t t); eauto.
+    + pose proof (nth_error_Forall _ _ _ _ FC2 Hn) as Cu.
+      destruct (t_prev2 u) as [g|] eqn:Epu.
+      * destruct (T2 ltac:(discriminate)) as (Ep & P1 & P2).
+        destruct (past_g u) eqn:Epi.
+        -- eapply (chg_ok2_preserved s _ s' _ u u'); eauto; try congruence.
+        -- unfold chg_ok2 in *. rewrite Ep, Epu in *. destruct Cu as (Hg & Hc & _).
+           destruct OC as (Hm & Hcc & _). split; [lia|]. split.
+           ++ destruct Hcc as [-> | [-> | ->]]; [exact Hc | discriminate | intro E; injection E as E; lia].
+           ++ intros Hp _. left. apply P2; auto.
+      * destruct (T3 eq_refl) as [E | (E & Epi & Hne)]; unfold chg_ok2; rewrite E; [exact I|].
+        destruct (s_cur s) as [g0|] eqn:Ec; [|exact I].
+        destruct OC as (Hm & _ & _). split; [specialize (Hcur g0 eq_refl); lia|]. split; [apply Hne; reflexivity|].
+        intros X. congruence.
   - (* closed mappings have a witness *)
     intros g Hg.
-    assert (Hold : In g (s_closed s) -> exists j t, nth_error (upd ts i u') j = Some t /\ t_prev t = Some g /\ past_inv t = true).
-    { intros Hin. destruct (CL g Hin) as (j & t & Hj & Hp & Hpi).
+    assert (Hwit : forall g0, witness g0 u -> witness g0 u').
+    { intros g0 [[Hp Hpi] | [Hp Hpi]].
+      - destruct (S2 ltac:(congruence)) as (Ep & P1 & _). left. split; [congruence | auto].
+      - destruct (T2 ltac:(congruence)) as (Ep & P1 & _). right. split; [congruence | auto]. }
+    assert (Hold : In g (s_closed s) -> exists j t, nth_error (upd ts i u') j = Some t /\ witness g t).
+    { intros Hin. destruct (CL g Hin) as (j & t & Hj & Hwt).
       destruct (Nat.eq_dec i j) as [<-|Ne].
       - rewrite Hn in Hj. injection Hj as <-. exists i, u'. rewrite nth_error_upd, Nat.eqb_refl, Hn.
-        destruct (S2 ltac:(congruence)) as (Ep & P1 & _). split; [reflexivity|]. split; [congruence | auto].
+        split; [reflexivity | apply Hwit; exact Hwt].
       - exists j, t. rewrite nth_error_upd. destruct (Nat.eqb_spec i j); [contradiction|]. auto. }
-    destruct S4 as [Ec | (g1 & Ep1 & Epi1 & Ec)]; rewrite Ec in Hg; [auto|].
+    destruct S4 as [Ec | (g1 & Hw1 & Ec)]; rewrite Ec in Hg; [auto|].
     destruct Hg as [<-|Hg]; [|auto].
-    exists i, u'. rewrite nth_error_upd, Nat.eqb_refl, Hn.
-    destruct (S2 ltac:(congruence)) as (Ep & P1 & _). split; [reflexivity|]. split; [congruence | auto].
+    exists i, u'. rewrite nth_error_upd, Nat.eqb_refl, Hn. split; [reflexivity | apply Hwit; exact Hw1].
   - apply Forall_upd; [exact PN|]. eapply prev_none_step; eauto.
 Qed.
 
@@ -433,24 +543,27 @@ Theorem closed_pointer_unusable np T sched st :
   w_have (s_word s) = false \/ 1 <= sumf look ts.
 Proof.
   intros I Fi P. destruct (finv_run np T sched st I Fi P) as [F' _].
-  destruct (run np sched st) as [s ts]. destruct F' as (FC & CL).
-  intros g Hg Hp. destruct (CL g Hg) as (j & t & Hj & Ept & Hpi).
-  pose proof (nth_error_Forall _ _ _ _ FC Hj) as Ct. unfold chg_ok in Ct. rewrite Ept in Ct.
-  destruct Ct as (_ & _ & H). apply H; assumption.
+  destruct (run np sched st) as [s ts]. destruct F' as (FC & FC2 & CL).
+  intros g Hg Hp. destruct (CL g Hg) as (j & t & Hj & [[Ept Hpi] | [Ept Hpi]]).
+  - pose proof (nth_error_Forall _ _ _ _ FC Hj) as Ct. unfold chg_ok in Ct. rewrite Ept in Ct.
+    destruct Ct as (_ & _ & H). apply H; assumption.
+  - pose proof (nth_error_Forall _ _ _ _ FC2 Hj) as Ct. unfold chg_ok2 in Ct. rewrite Ept in Ct.
+    destruct Ct as (_ & _ & H). apply H; assumption.
 Qed.
 
 (* ---- from the initial states ---- *)
 From Tele Require Import Proofs.CounterThms.
 
 Definition good_init2 (s : shared) (ts : list thread) : Prop :=
-  good_init s ts /\ s_closed s = [] /\ Forall (fun t => t_prev t = None) ts.
+  good_init s ts /\ s_closed s = [] /\ Forall (fun t => t_prev t = None /\ t_prev2 t = None) ts.
 
 Lemma finv_init s ts : good_init2 s ts -> FInv (s, ts) /\ Forall prev_none_ok ts.
 Proof.
-  intros (_ & Hc & Hp). split; [split|].
-  - eapply Forall_impl; [|exact Hp]. intros t Ht. unfold chg_ok. rewrite Ht. exact I.
+  intros (_ & Hc & Hp). split; [split; [|split]|].
+  - eapply Forall_impl; [|exact Hp]. intros t [Ht _]. unfold chg_ok. rewrite Ht. exact I.
+  - eapply Forall_impl; [|exact Hp]. intros t [_ Ht]. unfold chg_ok2. rewrite Ht. exact I.
   - intros g Hg. rewrite Hc in Hg. destruct Hg.
-  - eapply Forall_impl; [|exact Hp]. intros t Ht. unfold prev_none_ok. destruct (t_pc t); auto.
+  - eapply Forall_impl; [|exact Hp]. intros t [Ht _]. unfold prev_none_ok. destruct (t_pc t); auto.
 Qed.
 
 Theorem closed_pointer_unusable_from_init np s0 ts0 sched : good_init2 s0 ts0 ->
